@@ -52,8 +52,8 @@ PROPS = {
     },
     "C06": {
     "generators": [("c06a", 4000, 120000), ("c06idx", 6000, 60000), ("c06pc", 3000, 60000), ("c04build", 1600, 24000)],
-    "translators": ["translator_c06", "translator_c08"],
-    "modules": ["S2.IndexBuild", "S2.Generated.LocateFns", "S2.ShapesBase", "S2.ShapesLoops", "S2.Shapes", "S2.Generated.ShapeAccessors", "S2.Locate", "S2.PaddedCellM", "S2.Hilbert", "S2.STUV", "S2.CellM", "S2.CellID", "S2.Contain", "S2.Pred", "S2.Exact"],
+    "translators": ["translator_c06", "translator_c08", "translator_c04"],
+    "modules": ["S2.IndexBuild", "S2.Generated.BuildFns", "S2.Generated.PaddedCellFns", "S2.Generated.ClipFns", "S2.Generated.LocateFns", "S2.ShapesBase", "S2.ShapesLoops", "S2.Shapes", "S2.Generated.ShapeAccessors", "S2.Locate", "S2.PaddedCellM", "S2.Hilbert", "S2.STUV", "S2.CellM", "S2.CellID", "S2.Contain", "S2.Pred", "S2.Exact"],
     "rule": "shapes: every Shape type (Loop incl. empty/full/0/2-vertex, Polyline, LaxPolyline, PointVector, LaxLoop (both "
             "constructors), LaxPolygon with 0,1,2,few,many loops incl. 0/1/2-vertex loops, Polygon empty/full/no-loop, disjoint and "
             "nested loop sets of 1..7, 11,12,13,14,40 loops = both sides of maxLinearSearchLoops) with pairwise distinct vertices; "
@@ -89,7 +89,7 @@ PROPS = {
     ],
     },
     "C09": {
-        "translators": ["translator_c01", "translator_c09"],
+        "translators": ["translator_c01", "translator_c09", "translator_c15b"],
         "generators": [("c09", 3000, 60000)],
         "modules": ["S2.Codec.Prim", "S2.Codec.Points", "S2.Codec.Types", "S2.STUV", "S2.F64"],
         "rule": "values of all nine encodable types built through the public constructors: points/caps/rects with special floats "
@@ -113,10 +113,11 @@ PROPS = {
                         "loop depths are non-negative and < 2^31 (set by the polygon constructors)"],
     },
     "C13": {
-        "translators": ["translator_c19"],
+        "translators": ["translator_c19", "translator_c14"],
         # harness generator, quick n, thorough n
         "generators": [("c13", 300, 3000)],
-        "modules": ["S2.History"],
+        "modules": ["S2.History", "S2.Footprint", "S2.Generated.FootprintIR"],
+        "regenerated_obligations": ["S2Proofs.C13Footprint.generated_sites_apply_updates", "S2Proofs.C13Footprint.generated_sites_present"],
         "rule": "operation histories executed on the real code in a child process (hang => HANG, panic => PANIC): the 12 shortest "
                 "expected failures first; ALL histories of length <= 4 (thorough 5) over {add loop, add empty, build, reset, query}, "
                 "over {invert, contains, cell} for a 64- and an 8-vertex loop, over {invert, contains} for empty/full/normal polygons, "
@@ -150,10 +151,13 @@ PROPS = {
         # built with `go build -race -tags verif`; falls back to the non-race binary (race=-) if -race is unavailable
         "generators": [("c14", 60, 600)],
         "harness_build_flags": ["-race"],
-        "modules": ["S2.Protocol", "S2.Generated.ProtocolIR"],
+        "modules": ["S2.Protocol", "S2.Generated.ProtocolIR", "S2.Footprint", "S2.Generated.FootprintIR"],
         "translators": ["translator_c14"],
         "regenerated_obligations": ["S2Proofs.C14.generated_wellFormed", "S2Proofs.C14.isFresh_is_one_atomic_load",
-                                    "S2Proofs.C14.mutators_store_status_last"],
+                                    "S2Proofs.C14.mutators_store_status_last",
+                                    "S2Proofs.C14Footprint.generated_footprint_ok", "S2Proofs.C14Footprint.generated_field_classes",
+                                    "S2Proofs.C14Footprint.generated_builder_only", "S2Proofs.C14Footprint.generated_establishing",
+                                    "S2Proofs.C14Footprint.generated_reentry_sites"],
         "rule": "forced schedules through the four verif schedule points of maybeApplyUpdates under the Go race detector, each in a child "
                 "process with watchdog: named interleavings (both see stale, one builds while the other waits, late reader, serial) for N=2,3 "
                 "on 7 scenarios (index x ContainsPointQuery / CrossingEdgeQuery / EdgeQuery, loop point / cell, polygon point / relation), "
@@ -280,8 +284,8 @@ PROPS = {
     "C04": {
     # (generator, quick n, thorough n); quick ~ 40 s on 16 cores, thorough ~ 7 min
     "generators": [("c04", 8000, 80000), ("c04build", 1600, 24000)],
-    "translators": ["translator_c08"],
-    "modules": ["S2.IndexBuild", "S2.Generated.ContainFns", "S2.Contain", "S2.Pred", "S2.Exact", "S2.STUV", "S2.F64", "S2.CellID", "S2.Hilbert"],
+    "translators": ["translator_c08", "translator_c04"],
+    "modules": ["S2.IndexBuild", "S2.Generated.ClipFns", "S2.Generated.ContainFns", "S2.Contain", "S2.Pred", "S2.Exact", "S2.STUV", "S2.F64", "S2.CellID", "S2.Hilbert"],
     "rule": "exact judge = crossing parity from OriginPoint with the exact orientation predicate (S2.Contain over S2.Pred.exactDecision). "
             "c04contain: valid loops (star-shaped about a centre at a pole / cube corner / face-edge midpoint / face centre / near a seam / anywhere; "
             "3..2000 vertices incl. 30..35 around the 32-vertex brute-force threshold; radius 1e-7 .. hemisphere; regular or jittered; "
@@ -369,7 +373,7 @@ PROPS = {
         # (12*(n/16) in thorough tier) on top of ~850 mandatory ones and each shard emits its 1/16 of the plan.
         # Inputs whose declared count equals a documented limit make the REAL decoder allocate ~1.2 GB (decodes are serialised
         # machine-wide by a flock slot) and cost ~10 s in the Lean interpreter: capped at 2 per type (12 in thorough tier).
-        "translators": ["translator_c15"],
+        "translators": ["translator_c15", "translator_c15b"],
         "generators": [("c15", 4800, 16000)],
         "modules": ["S2.DecoderIR", "S2.Generated.DecoderIR", "S2.CellID"],
         "rule": "valid encodings of every type and both polygon formats (built with the public API), then: truncation at every "
@@ -399,8 +403,8 @@ PROPS = {
     "C07": {
         # (generator, quick n, thorough n); the exact O(n*m) oracle costs about 0.3 s per line on average
         "generators": [("c07", 1600, 24000), ("c07walk", 320, 8000)],
-        "translators": ["translator_c09"],
-        "modules": ["S2.Relate", "S2.RelateWalk", "S2.Nesting", "S2.Pred", "S2.Exact"],
+        "translators": ["translator_c09", "translator_c07"],
+        "modules": ["S2.Generated.RelateFns", "S2.Relate", "S2.RelateWalk", "S2.Nesting", "S2.Pred", "S2.Exact"],
         "rule": "rel: pairs of valid loops — concentric regular polygons (the D1 shape: both sides with multi-cell indexes and edge-free "
                 "interior cells), nearly equal radii, star-shaped random loops at every distance (disjoint / crossing / nested), "
                 "one or both larger than a hemisphere, B = every s-th vertex of A (1..n shared vertices), B = a chain of A closed by a chord "
@@ -445,9 +449,9 @@ PROPS = {
                     "IndexWalkAgrees, ExactRelationIsPointSet, PolygonComplementLaws are stated as def : Prop, not proved"],
     },
     "C12": {
-        "translators": ["translator_c19", "translator_c09"],
+        "translators": ["translator_c19", "translator_c09", "translator_c04"],
         "generators": [("c12", 1500, 20000), ("c06pc", 2000, 40000)],
-        "modules": ["S2.CellM", "S2.STUV", "S2.Hilbert", "S2.CellID", "S2.F64", "S2.Exact", "S2.PaddedCellM"],
+        "modules": ["S2.CellM", "S2.STUV", "S2.Hilbert", "S2.CellID", "S2.F64", "S2.Exact", "S2.PaddedCellM", "S2.Generated.PaddedCellFns"],
         "rule": "cells: exhaustive levels 0-2 (thorough 0-4) plus structured random cells of every level (cube corners, face edges, "
                 "the four cells around each pole, coarse grid lines, uniform); per cell: Children vs direct construction (cellch), RectBound/"
                 "CapBound on 4 vertices + 4 edge midpoints + uv centre + the |u|,|v|-minimal boundary points + random edge/interior points, "
@@ -525,13 +529,13 @@ PROPS = {
                     "checked by correspondence only)"],
     },
     "C05": {
-        "translators": ["translator_c19"],
+        "translators": ["translator_c19", "translator_c07"],
         # (generator, quick n, thorough n); c05 emits `cov` and `pred` lines, c05s18 drives normalizeCovering into its re-cover
         # branch and its merge loop (repaired defects S18 / hang: corpus/C05/fixed_S18_hang.txt; each line runs under a 20 s
         # watchdog, result token HANG).  NOT run here: c05x (`predx`: cap predicates judged with a slack of 2^-50 relative to
         # r2 only, fails at the 1e-17 rad level) and c05polar (explores the KNOWN finding class `…-polar-rect`).
         "generators": [("c05", 40000, 400000), ("c05s18", 1600, 16000)],
-        "modules": ["S2.Coverer", "S2.CellUnion", "S2.CellID", "S2.STUV", "S2.Exact", "S2.Pred", "S2.F64"],
+        "modules": ["S2.Generated.RegionFns", "S2.Coverer", "S2.CovererRegions", "S2.CellUnion", "S2.CellID", "S2.STUV", "S2.Exact", "S2.Pred", "S2.F64"],
         "rule": "one line = one region under one coverer configuration: caps, lat-lng rectangles (polar, degenerate, antimeridian, "
                 "full, empty), cells, cell unions (with holes / far components), a user region whose CellUnionBound() is its own "
                 "cell list, convex regular loops of 3..64 vertices, star-shaped loops, polygons with a hole (and a shell inside the hole), "
@@ -561,9 +565,9 @@ PROPS = {
     "C10": {
     # (generator, quick n, thorough n); measured 48000 lines in 46 s on 16 cores (generator + oracle);
     # c10long = long-edge loops only (RectBounder latitude budget, finding F1): 32000 lines in 40 s
-    "translators": ["translator_c10"],
+    "translators": ["translator_c10", "translator_c07"],
      "generators": [("c10", 36000, 500000), ("c10long", 6000, 400000)],
-    "modules": ["S2.Generated.BoundsFns", "S2.Bounds", "S2.Interval", "S2.Contain", "S2.Pred", "S2.Exact", "S2.STUV", "S2.F64", "S2.F64Extra", "S2.CellID"],
+    "modules": ["S2.Generated.BoundsFns", "S2.Generated.RegionFns", "S2.Bounds", "S2.Interval", "S2.Contain", "S2.Pred", "S2.Exact", "S2.STUV", "S2.F64", "S2.F64Extra", "S2.CellID"],
     "rule": "every run first replays the minimal inputs of the repaired findings F1-F6 (c10Regression). regions: loops (star loops about a pole / cube corner / face-edge midpoint / anywhere, 3..300 vertices, radius 1e-7 .. hemisphere, "
             "counter-clockwise or clockwise = larger than a hemisphere; an edge through / within 0, denormal, 1e-16 .. 1e-3 of a pole incl. LONG "
             "polar edges whose endpoints are nearly antipodal; an edge spanning pi -+ tiny of longitude; nearly antipodal adjacent vertices; thin strips "
